@@ -224,6 +224,8 @@ class History:
             for c, (task, fut) in self.tasks.items():
                 if not task.done():
                     task.cancel()
+            if getattr(self, "_session", None) is not None:
+                self._session.cancel()
             self._step_loop()
             self.loop.close()
         return recs
@@ -322,7 +324,14 @@ class History:
             if a["title"] != "":
                 kw["title"] = a["title"]
             try:
-                r = s.value(**kw)
+                if self.tid % 2 == 1:
+                    # every other history: all the answered-at-once calls are awaited, one after the other, by ONE
+                    # long-lived coroutine (one context: what a call leaves behind meets the next call)
+                    kind, r = self._session_call(s, kw)
+                    if kind == "exc":
+                        raise r
+                else:
+                    r = s.value(**kw)
                 self.sync_done.append({"c": a["c"], "kind": "ret", "val": r if isinstance(r, int) else -1})
             except Exception as e:
                 self.sync_done.append({"c": a["c"], "kind": "raise" if is_exc_for(e, a["c"]) else "raise-other", "val": 0})
@@ -341,6 +350,29 @@ class History:
             self.tasks[a["c"]] = (task, fut)
         else:
             raise ValueError(act)
+
+
+def _session_call(self, stream, kw):
+    if getattr(self, "_session", None) is None:
+        self._requests = asyncio.Queue()
+
+        async def session():
+            while True:
+                st, k, out = await self._requests.get()
+                try:
+                    out.append(("ret", await st.value_async(**k)))
+                except Exception as e:       # handed back to the step that made the call
+                    out.append(("exc", e))
+        self._session = self.loop.create_task(session())
+    out = []
+    self._requests.put_nowait((stream, kw, out))
+    self._step_loop()
+    if not out:
+        return ("exc", RuntimeError("session call did not complete"))
+    return out[0]
+
+
+History._session_call = _session_call
 
 
 def run_history(job):
